@@ -209,7 +209,7 @@ Section MspSequence.
     unfold msp_sequence. replace (p <=? 2 * k) with true by (symmetry; apply Nat.leb_le; lia).
     replace (N.of_nat (2 * k - p) <=? max_len)%N with true by (symmetry; apply N.leb_le; exact Hmax).
     replace (length sq <? k) with false by (symmetry; apply Nat.ltb_ge; exact Hkm).
-    cbn [andb]. fold score. rewrite E. reflexivity.
+    cbn [andb]. fold score. rewrite scan_checked_scan, E. reflexivity.
   Qed.
 
   (* each emitted piece is the exact substring at its tiling position, with the flanking bases as extensions *)
